@@ -239,14 +239,23 @@ func (c06) Run(inp interface{}) Sx {
 		wg.Add(1)
 		go func() {
 			defer wg.Done()
-			select {
-			case iq, ok := <-ch:
+			take := func(iq stanza.IQ, ok bool) {
 				if ok {
 					mu.Lock()
 					delivered = append(delivered, c06Attrs(string(iq.Type), iq.Id, iq.From, iq.To))
 					mu.Unlock()
 				}
+			}
+			select {
+			case iq, ok := <-ch:
+				take(iq, ok)
 			case <-done:
+				// the result channel is buffered: the value may be waiting although routing has returned
+				select {
+				case iq, ok := <-ch:
+					take(iq, ok)
+				default:
+				}
 			}
 		}()
 	}
